@@ -797,7 +797,7 @@ def _qualify_columns(
                 and column_name in scope.selected_sources
             ):
                 # BigQuery and Postgres allow tables to be referenced as columns, treating them as structs/records
-                scope.replace(column, exp.TableColumn(this=column.this))
+                scope.replace(column, exp.TableColumn(this=column.this.copy()))
 
     pivots = scope.pivots
 
